@@ -756,3 +756,10 @@ func init() {
 	})
 	_ = sort.Strings
 }
+
+// rule addenda (rounds 9-12): what the evidence says about the coverage of a run
+func init() {
+	if p := registry["C13"]; p != nil {
+		p.Rule += " close-refused (teardown packet refused), unknown-token (a message starting with a token without a package type, then a DONE, then Conn.Close)."
+	}
+}
